@@ -85,6 +85,10 @@ def buildPrograms (n : Nat) (evs : List Ev) :
   let mut trees : Array Tree := Array.replicate n .unknown
   let mut cur : Array (Option Incarnation) := #[]
   let mut base : List (Nat × Nat) := []
+  -- values of the committed state: location -> value of its latest committed writer
+  let mut committed : List (Nat × Nat) := []
+  -- publications of the last successful incarnation of each transaction
+  let mut lastPubs : Array (List (Nat × Nat)) := Array.replicate n []
   for ev in evs do
     let t := ev.tid
     match ev.site with
@@ -97,16 +101,16 @@ def buildPrograms (n : Nat) (evs : List Ev) :
             let v := ev.d.getD 0
             cur := setAt cur t (some { inc with reads := inc.reads.push (l, v) }) none
             if ev.c == some 0 then
-              match base.find? (fun p => p.1 == l) with
-              | some (_, v0) =>
-                  if v0 != v then
-                    -- The model reads the block-start value atomically with the MV lookup. The code
-                    -- looks up the MV memory and, on a miss, reads the committed cache LATER: a
-                    -- commit in between makes that read return a committed value with origin
-                    -- `Storage` (the attempt is then refuted by validation). Such runs are outside
-                    -- the model's action set: skipped and counted, not replayed.
-                    return .error s!"racy-base-read location {l} ({v0} vs {v})"
-              | none => base := (l, v) :: base
+              -- origin `Storage`: the committed cache was read. It holds the value of the latest
+              -- COMMITTED writer of the location, or the block-start value (learned here).
+              match committed.find? (fun p => p.1 == l) with
+              | some _ => pure ()
+              | none =>
+                  match base.find? (fun p => p.1 == l) with
+                  | some (_, v0) =>
+                      if v0 != v then
+                        return .error s!"block-start value of location {l} changed between reads ({v0} vs {v}) although no transaction writing it was committed in between"
+                  | none => base := (l, v) :: base
         | none => pure ()
     | "mv_publish_val" =>
         match cur.getD t none with
@@ -117,12 +121,16 @@ def buildPrograms (n : Nat) (evs : List Ev) :
         match cur.getD t none with
         | some inc =>
             let leaf := if ev.c == some 1 then Tree.ok inc.pubs.toList else Tree.fail
+            lastPubs := setAt lastPubs inc.tx (if ev.c == some 1 then inc.pubs.toList else []) []
             match (trees.getD inc.tx .unknown).insert inc.reads.toList leaf with
             | some t' => trees := setAt trees inc.tx t' .unknown
             | none =>
                 return .error s!"nondeterminism: two incarnations of tx {inc.tx} read equal values but behaved differently (monitored assumption 1); this one: reads {inc.reads.toList} pubs {inc.pubs.toList} ok {ev.c.getD 9}; earlier: {(trees.getD inc.tx .unknown).render}"
             cur := setAt cur t none none
         | none => pure ()
+    | "commit_done" =>
+        for (l, v) in lastPubs.getD (ev.a.getD 0) [] do
+          committed := (l, v) :: committed.filter (fun p => p.1 != l)
     | _ => pure ()
   return .ok (trees, base)
 
@@ -158,6 +166,7 @@ def skipTail (P : Params) (r : Replay) (tx : Nat) : Replay :=
 def phaseName : Phase → String
   | .idle => "idle"
   | .reading _ _ _ => "reading"
+  | .fetching l _ _ _ => s!"fetching({l})"
   | .publishing _ todo _ => s!"publishing(todo {todo})"
   | .removing _ todo _ => s!"removing(todo {todo})"
   | .errMark _ _ todo => s!"errMark(todo {todo})"
@@ -188,6 +197,10 @@ def event (P : Params) (r : Replay) (ev : Ev) : Except String Replay := do
           stepOrErr P r (.execRead a) "execRead"
       | p => throw s!"impl reads {b} but the model program of tx {a} is in {phaseName p} / not at a read"
   | "mv_read_done" =>
+      -- a lookup miss is completed by the read of the committed cache
+      let r ← match r.s.phase a with
+        | .fetching _ _ _ _ => stepOrErr P r (.execFetch a) "execFetch"
+        | _ => pure r
       match r.s.phase a with
       | .reading _ (rec :: _) _ =>
           if rec.loc != b then throw s!"read-done location differs"
@@ -339,7 +352,7 @@ def replaySched (n : Nat) (lines : List String) : String := Id.run do
   if evs.any (fun e => e.site == "hist_read") then
     return "skip beneficiary-read"
   match buildPrograms n evs with
-  | .error e => return (if e.startsWith "racy-base-read" then s!"skip {e}" else s!"diverge 0 {e}")
+  | .error e => return s!"diverge 0 {e}"
   | .ok (trees, base) =>
       let P : Params :=
         { n := n, txs := fun i => (trees.getD i .unknown).toProg,
